@@ -5,6 +5,7 @@
 package rlab
 
 import (
+	"errors"
 	"encoding/binary"
 	"fmt"
 	"hash/fnv"
@@ -34,13 +35,23 @@ const (
 	KFence
 	KAsk
 	KReply
+	KBad // the receiving side's reader rejects it (a peer with a different idea of this message: version skew)
 )
+
+// ErrBad is what the registered reader returns for a KBad message.
+var ErrBad = errors.New("verif: this side cannot decode the message (KBad)")
 
 func init() {
 	vivid.RegisterCustomMessage[*Msg]("verif.rlab.Msg",
 		func(message any, r *messages.Reader, _ messages.Codec) error {
 			m := message.(*Msg)
-			return r.ReadInto(&m.Sender, &m.Seq, &m.Kind, &m.Body)
+			if err := r.ReadInto(&m.Sender, &m.Seq, &m.Kind, &m.Body); err != nil {
+				return err
+			}
+			if m.Kind == KBad {
+				return ErrBad
+			}
+			return nil
 		},
 		func(message any, w *messages.Writer, _ messages.Codec) error {
 			m := message.(*Msg)
